@@ -33,19 +33,28 @@ pub struct QCfg {
     pub trace: bool,
     /// Use a reduced set of submission shapes (deeper histories at the same cost).
     pub reduced: bool,
+    /// Start the exploration from a non-initial state reached by an unchecked prefix:
+    /// 1 = the queue was filled with single-buffer requests which were completed and consumed in
+    /// submission order (the free list is now in descending order); 2 = the same, completed in
+    /// reverse order.
+    pub preroll: u8,
+    /// Include the blocking helper `add_notify_wait_pop` in the alphabet (the device serves the
+    /// request inside the notification or while the driver busy-waits), also while completions of
+    /// earlier requests are waiting to be consumed.
+    pub wait_pop: bool,
 }
 
 impl QCfg {
     pub fn label<const N: usize>(&self) -> String {
         format!(
-            "qcore:N={},indirect={},event_idx={},ap={},legacy={},off={},nops={},abs={},trace={},rs={}",
-            N, self.indirect as u8, self.event_idx as u8, self.ap as u8, self.legacy as u8, self.start_off, self.notify_ops as u8, self.abstract_idx as u8, self.trace as u8, self.reduced as u8
+            "qcore:N={},indirect={},event_idx={},ap={},legacy={},off={},nops={},abs={},trace={},rs={},pre={},wp={}",
+            N, self.indirect as u8, self.event_idx as u8, self.ap as u8, self.legacy as u8, self.start_off, self.notify_ops as u8, self.abstract_idx as u8, self.trace as u8, self.reduced as u8, self.preroll, self.wait_pop as u8
         )
     }
     pub fn parse(s: &str) -> Option<(usize, QCfg)> {
         let s = s.strip_prefix("qcore:")?;
         let mut n = 0usize;
-        let mut c = QCfg { indirect: false, event_idx: false, ap: false, legacy: false, start_off: 0, notify_ops: false, abstract_idx: false, trace: false, reduced: false };
+        let mut c = QCfg { indirect: false, event_idx: false, ap: false, legacy: false, start_off: 0, notify_ops: false, abstract_idx: false, trace: false, reduced: false, preroll: 0, wait_pop: false };
         for kv in s.split(',') {
             let (k, v) = kv.split_once('=')?;
             let v: u64 = v.parse().ok()?;
@@ -60,6 +69,8 @@ impl QCfg {
                 "abs" => c.abstract_idx = v != 0,
                 "trace" => c.trace = v != 0,
                 "rs" => c.reduced = v != 0,
+                "pre" => c.preroll = v as u8,
+                "wp" => c.wait_pop = v != 0,
                 _ => return None,
             }
         }
@@ -75,6 +86,7 @@ pub const A_POP_WRONG_FREE: u16 = 202;
 pub const A_POP_EMPTY: u16 = 203;
 pub const A_NOTIFY_OFF: u16 = 210;
 pub const A_NOTIFY_ON: u16 = 211;
+pub const A_WAIT_POP: u16 = 220;
 
 pub fn shapes_for_cfg(n: usize, reduced: bool) -> Vec<(usize, usize)> {
     if !reduced {
@@ -393,6 +405,9 @@ impl<const N: usize> World<N> {
             v.push(A_NOTIFY_OFF);
             v.push(A_NOTIFY_ON);
         }
+        if self.cfg.wait_pop {
+            v.push(A_WAIT_POP);
+        }
         v
     }
 
@@ -427,6 +442,7 @@ impl<const N: usize> World<N> {
             A_POP_EMPTY => "pop_used(with nothing completed)".into(),
             A_NOTIFY_OFF => "set_dev_notify(false)".into(),
             A_NOTIFY_ON => "set_dev_notify(true)".into(),
+            A_WAIT_POP => "add_notify_wait_pop(1 readable, 1 writable), device serves it when notified".into(),
             x => format!("action {}", x),
         }
     }
@@ -450,6 +466,7 @@ impl<const N: usize> World<N> {
                 let t = self.outs.first().map(|o| o.token).unwrap_or(0);
                 self.do_pop_fail(t, Error::NotReady, check)
             }
+            A_WAIT_POP => self.do_wait_pop(check),
             A_NOTIFY_OFF | A_NOTIFY_ON => {
                 let en = a == A_NOTIFY_ON;
                 let _ = self.traced(check, |q| q.set_dev_notify(en));
@@ -553,6 +570,161 @@ impl<const N: usize> World<N> {
                 let chain = chain.unwrap_or(Chain { head: token, descs: vec![], elems: vec![], indirect: None });
                 self.outs.push(Out { token, ins: std::mem::take(&mut ins), outs: std::mem::take(&mut outs), pos, chain, completed: None, held: heldn });
                 self.inflight.push(token);
+            }
+        }
+    }
+
+    /// The blocking helper: submit one readable and one writable buffer, notify, wait, consume.
+    /// The device fetches and completes the new chain when notified (or when it polls while the
+    /// driver busy-waits). The helper's documented precondition is that nothing else is being
+    /// processed; it is also exercised while completions of earlier requests are waiting, where
+    /// its result is not judged - but whatever it returns, the chain it published belongs to the
+    /// device until its completion has been consumed, so its descriptors must not be handed out
+    /// again (checked by the submission oracles of the following steps and by the free-list
+    /// integrity check).
+    fn do_wait_pop(&mut self, check: bool) {
+        use std::cell::RefCell;
+        use std::rc::Rc;
+        let held = self.held();
+        let must_refuse = if self.cfg.indirect { held + 1 > N } else { held + 2 > N };
+        let pos = self.cfg.start_off.wrapping_add(self.adds as u16);
+        let seed = pos as u32;
+        let ins: Vec<Box<[u8]>> = vec![(0..(1 + pos as usize % 5)).map(|k| pat(seed, k)).collect::<Vec<u8>>().into_boxed_slice()];
+        let mut outs: Vec<Box<[u8]>> = vec![vec![0x5Au8; 1 + (pos as usize) % 6].into_boxed_slice()];
+        let others_pending = !self.fifo.is_empty() || !self.inflight.is_empty();
+        let owners = self.owner_map();
+        let want: Vec<(usize, usize, bool)> = vec![(ins[0].as_ptr() as usize, ins[0].len(), false), (outs[0].as_ptr() as usize, outs[0].len(), true)];
+        // (chain, recorded length, pattern seed, elements matched the caller's buffers)
+        let served: Rc<RefCell<Vec<(Chain, u32, u8, bool)>>> = Rc::new(RefCell::new(vec![]));
+        let rq: Rc<RefCell<RefQueue>> = Rc::new(RefCell::new(self.refq.clone()));
+        let serve = {
+            let served = served.clone();
+            let rq = rq.clone();
+            let want = want.clone();
+            move || {
+                let mut rq = rq.borrow_mut();
+                while let Ok(Some(chain)) = rq.fetch() {
+                    let old = rq.used_idx;
+                    let len = (chain.head as u32) * 7 + (old as u32) * 13 + 1;
+                    let pseed = (old as u8).wrapping_mul(17).wrapping_add(chain.head as u8);
+                    let mut widx = 0u32;
+                    for e in chain.elems.iter().filter(|e| e.write) {
+                        let data: Vec<u8> = (0..e.len as usize).map(|k| pat(pseed as u32 + widx * 977, k)).collect();
+                        let _ = hal::with(|h| h.dev_write(e.addr, &data));
+                        widx += 1;
+                    }
+                    let ok = chain.elems.len() == want.len() && chain.elems.iter().zip(want.iter()).all(|(e, w)| e.len as usize == w.1 && e.write == w.2 && hal::with(|h| h.shares.iter().any(|s| s.live && s.paddr == e.addr && s.vaddr == w.0 && s.len == w.1)));
+                    let _ = rq.push_used(chain.head as u32, len);
+                    served.borrow_mut().push((chain, len, pseed, ok));
+                }
+            }
+        };
+        let serve_later = serve.clone();
+        {
+            let mut s1 = serve.clone();
+            crate::dev::set_notify_handler(Some(Box::new(move |_q| s1())));
+            let mut s2 = serve;
+            let spins = Rc::new(RefCell::new(0u32));
+            crate::mmio::set_spin_handler(Some(Box::new(move |_site| {
+                *spins.borrow_mut() += 1;
+                s2();
+                if *spins.borrow() > 6 {
+                    panic!("LAB-LIVELOCK: add_notify_wait_pop keeps waiting although the device has completed the request");
+                }
+            })));
+        }
+        let res = {
+            let (ip, il, op, ol) = (ins[0].as_ptr(), ins[0].len(), outs[0].as_mut_ptr(), outs[0].len());
+            let q = self.q.as_mut().unwrap();
+            let t = &mut self.transport;
+            crate::util::catch(std::panic::AssertUnwindSafe(|| {
+                // SAFETY: the buffers are owned by this function (or the outstanding table) for
+                // as long as the device may use them.
+                let in_refs: [&[u8]; 1] = [unsafe { std::slice::from_raw_parts(ip, il) }];
+                let mut out_refs: [&mut [u8]; 1] = [unsafe { std::slice::from_raw_parts_mut(op, ol) }];
+                q.add_notify_wait_pop(&in_refs, &mut out_refs, t)
+            }))
+        };
+        crate::dev::set_notify_handler(None);
+        crate::mmio::set_spin_handler(None);
+        // If the helper returned without the device having looked (an earlier completion was
+        // already waiting, so it never waited), the device finds the new entry now.
+        serve_later();
+        {
+            let r = rq.borrow();
+            self.refq.last_avail = r.last_avail;
+            self.refq.used_idx = r.used_idx;
+        }
+        tag("wait_pop");
+        tlog!("  add_notify_wait_pop -> {:?} (device served {} chains)", res, served.borrow().len());
+        let served = std::mem::take(&mut *served.borrow_mut());
+        if served.len() > 1 {
+            viol("C01", "avail-idx-step", format!("one add_notify_wait_pop made {} entries available", served.len()));
+        }
+        let res = match res {
+            Ok(r) => r,
+            Err(p) => {
+                if check {
+                    viol("C03", "wait-pop-panicked", format!("add_notify_wait_pop panicked: {}", p));
+                }
+                Err(Error::IoError)
+            }
+        };
+        match served.into_iter().next() {
+            None => {
+                if check && !must_refuse {
+                    viol("C03", "add-spuriously-refused", format!("add_notify_wait_pop with {} of {} descriptors held -> {:?} and nothing reached the device", held, N, res));
+                }
+                if check && res.is_ok() {
+                    viol("C03", "wait-pop-result", "add_notify_wait_pop returned Ok although nothing reached the device".into());
+                }
+            }
+            Some((chain, len, pseed, elems_ok)) => {
+                self.adds += 1;
+                let token = chain.head;
+                if check {
+                    if must_refuse {
+                        viol("C03", "add-not-refused", format!("add_notify_wait_pop with {} of {} descriptors held must be refused but a chain reached the device", held, N));
+                    }
+                    if !elems_ok {
+                        viol("C01", "element-mismatch", format!("the chain published by add_notify_wait_pop reads {:?}, not the caller's two buffers", chain.elems));
+                    }
+                    for &d in &chain.descs {
+                        if let Some(o) = owners[d as usize] {
+                            viol("C01", "descriptor-shared", format!("descriptor {} of the chain published by add_notify_wait_pop already belongs to outstanding chain {}", d, o));
+                        }
+                    }
+                }
+                match res {
+                    Ok(got) => {
+                        self.pops = self.pops.wrapping_add(1);
+                        if check {
+                            if got != len {
+                                viol("C03", "pop-length", format!("add_notify_wait_pop returned {} but the device recorded {}", got, len));
+                            }
+                            let data: Vec<u8> = (0..outs[0].len()).map(|k| pat(pseed as u32, k)).collect();
+                            if *outs[0] != data[..] {
+                                viol("C04", "writeback-data", "the writable buffer of add_notify_wait_pop does not hold what the device wrote".into());
+                            }
+                            if others_pending && !self.fifo.is_empty() {
+                                // Consumed out of used-ring order: only possible if the helper looked past the front.
+                                viol("C03", "wait-pop-result", "add_notify_wait_pop consumed its completion although an earlier completion is first in the used ring".into());
+                            }
+                        }
+                    }
+                    Err(e) => {
+                        if check && !others_pending {
+                            viol("C03", "wait-pop-result", format!("add_notify_wait_pop with nothing else in flight -> {:?} although the device completed the request", e));
+                        }
+                        // The chain stays with the device side of the bookkeeping: published,
+                        // completed, not consumed.
+                        tag("wait_pop:left-outstanding");
+                        let heldn = chain.descs.len();
+                        self.outs.push(Out { token, ins, outs, pos, chain, completed: Some((len, pseed)), held: heldn });
+                        self.fifo.push_back((token, len));
+                        return;
+                    }
+                }
             }
         }
     }
@@ -1020,6 +1192,23 @@ impl<const N: usize> BfsModel for QModel<N> {
                 return BfsStep { key: 0, enabled: vec![] };
             }
         };
+        if self.cfg.preroll != 0 {
+            // An unchecked prefix: N single-buffer requests (readable and writable alternating),
+            // all completed (in submission or in reverse order) and consumed.
+            let shapes = shapes_for_cfg(N, self.cfg.reduced);
+            let r = shapes.iter().position(|s| *s == (1, 0)).unwrap() as u16;
+            let wr = shapes.iter().position(|s| *s == (0, 1)).unwrap() as u16;
+            for k in 0..N {
+                w.step(if k % 2 == 0 { r } else { wr }, false);
+            }
+            for k in 0..N {
+                let j = if self.cfg.preroll == 2 { N - 1 - k } else { 0 };
+                w.step(A_COMPLETE0 + j as u16, false);
+            }
+            for _ in 0..N {
+                w.step(A_POP_RIGHT, false);
+            }
+        }
         for (i, &a) in history.iter().enumerate() {
             let last = i + 1 == history.len();
             w.step(a, last);
